@@ -215,6 +215,25 @@ def run(res):
         except Exception as e:
             res.disagree('a long chain of `w` prefixes causes an unhandled error', '`w ` x %d + help' % count, 'output or an error line', repr(e)[:200],
                          sig={'entry': 'command-depth', 'exception': type(e).__name__, 'count': count})
+    # deeply nested matcher text, as matcher and as command argument (recursion depth of the parser)
+    from core import matcher as _matcher
+    for depth in (100, 600, 3000):
+        for shape in ('[' * depth + 'wl_surface' + ']' * depth, '(' + '[' * depth + '5' + ']' * depth + ')',
+                      '[' * depth + 'a, b ! c' + ']' * depth, 'x.' + '[' * depth + 'y' + ']' * depth):
+            res.evaluations += 2
+            try:
+                try:
+                    m = _matcher.parse(shape)
+                    str(m.simplify())
+                except RuntimeError:
+                    pass
+                case = dict(config=[None, None, 0, 1, 0], impl_events=[('cmd', 'filter ' + shape), ('cmd', 'list ' + shape), ('eof',)],
+                            events=[['cmd', 'x'], ['cmd', 'x'], ['eof']], dialect='old')
+                sessioncheck.run_impl(case)
+                res.nontriv(('deep', depth, shape[:3]))
+            except Exception as e:
+                res.disagree('deeply nested matcher text causes an unhandled error', '%d levels: %s...' % (depth, shape[depth - 1:depth + 12]), 'accepted or RuntimeError',
+                             repr(e)[:200], sig={'entry': 'matcher-depth', 'exception': type(e).__name__, 'depth': depth})
     # 4. main.py as a process in the three input modes
     process_level(res, rnd, work)
     res.rule = ('logs: generated valid logs with 35% mutated lines, pathological lines (id 0, non-int delete_id, short bind, 1e999, huge numbers, lone ESC), undecodable bytes, random bytes, truncation; '
@@ -229,6 +248,11 @@ def run(res):
 
 def weird_cmd(rnd):
     r = rnd.random()
+    if r < 0.06:
+        # numbers at and beyond what int() converts (Python refuses more than 4300 digits), other spellings of a count
+        return rnd.choice(['list ~ ' + '9' * 5000, 'l ~ -' + '1' * 4400, 'wl list wl_display ~ ' + '0' * 6000, 'list ~ +5', 'list ~ 1_0', 'list ~ 0x10',
+                           'list ~ 1e3', 'list ~ \u0663', 'list ~ \uff15', 'list ~ 5 ~ 6', 'list ~', 'connection ' + 'A' * 5000, 'help ' + 'x' * 5000,
+                           'filter ' + 'a' * 20000, 'breakpoint (' + '1' * 5000 + ')', 'list (' + '1' * 4400 + '.' + '5' * 10 + ')'])
     if r < 0.5:
         return cmdgen.mixed(rnd)
     if r < 0.8:
